@@ -307,3 +307,45 @@ Proof.
   - rewrite filter_insert_same by assumption. reflexivity.
 Qed.
 End P.
+
+(* C14 "valid => Ok", composed with the round trip: every marking whose paths resolve in the claims and are
+   listed descendants-before-ancestors without repeats is accepted; and then encode / Holder::verify behave
+   as in encode_then_holder_verify. *)
+Require Import SDJ.T1r.
+Section V.
+Variable E : issue_env.
+Variable O : oracles.
+Notation H := (ie_hash E).
+Notation enc := (ie_enc E).
+Hypothesis hash_inj : forall x y, H x = H y -> x = y.
+Hypothesis dec_enc : forall ps, o_dec O (enc ps) = DJson (JArr ps).
+Hypothesis hash_is : o_hash O SHA256 = H.
+Hypothesis jwt_round : forall h p j, ie_sign E h p = Val j -> o_jwt O j = Val (h, p).
+Hypothesis sign_total : forall h p, exists j, ie_sign E h p = Val j /\ contains tilde j = false.
+Hypothesis enc_no_tilde : forall ps, contains tilde (enc ps) = false.
+Hypothesis perm_ok : forall xs, Permutation (ie_perm E xs) xs.
+
+Theorem valid_marking_issues
+    (ckvs : list (string * json)) (paths : list string) tks (addrs : list addr)
+    (max_decoys : option Z) (cnf : option json) (header : json) :
+  jwf (JObj ckvs) -> ~ In "_sd_alg" (map fst ckvs) -> ~ In "cnf" (map fst ckvs) ->
+  NoDup (ie_salts E) -> paths <> [] -> split_paths paths = Some tks ->
+  Forall2 (fun p a => jresolve Issuer2.parse_index Issuer2.parse_usize (fst p) (snd p) (JObj ckvs) = Some a) tks addrs ->
+  ordered addrs -> List.length tks <= List.length (ie_salts E) ->
+  exists t',
+    T1j.mark_fold H enc Issuer2.parse_index Issuer2.parse_usize (ie_pos E) (embed (JObj ckvs)) tks (ie_salts E) = Some t' /\
+    (NoDup (decoys_used E max_decoys) ->
+     (forall g, In g (decoys_used E max_decoys) -> ~ In g (alldigs H enc t')) ->
+     (match cnf with Some c => jwf c /\ S (aheight (embed c)) <= 129 | None => True end) ->
+     aheight t' <= 129 ->
+     exists token payload ds ps,
+       issue E (JObj ckvs) paths max_decoys cnf header = Val (token, payload, ds) /\
+       holder_verify O token = Val (header, match cnf with Some c => JObj (obj_insert "cnf" c ckvs) | None => JObj ckvs end, ps)).
+Proof.
+  intros HC Hnalg Hncnf Hnds Hpne Hsp HF Hord Hlen.
+  destruct (valid_marking_accepted H enc Issuer2.parse_index Issuer2.parse_usize (ie_pos E) (JObj ckvs) tks addrs (ie_salts E) HC HF Hord Hlen) as [t' Hm].
+  exists t'. split; [exact Hm|]. intros HndD Hfresh Hcnf Hh.
+  exact (encode_then_holder_verify E O hash_inj dec_enc hash_is jwt_round sign_total enc_no_tilde perm_ok
+           ckvs paths tks t' max_decoys cnf header HC Hnalg Hncnf Hnds Hpne Hsp Hm HndD Hfresh Hcnf Hh).
+Qed.
+End V.
